@@ -44,6 +44,8 @@ def validate(proto, out, r):
         if not m:
             # a '+' request may fall through to plain Gopher when the last field is not a Gopher+ string
             return "no Gopher+ status line"
+        if m.group(1).startswith(b"+-") and re.match(rb"--\d+\r\n", out[m.end():]):
+            return "two status lines: a success status followed by an error status"
         if m.group(1).startswith(b"+") and not m.group(1).startswith(b"+-"):
             n = int(m.group(1)[1:])
             if len(out) - m.end() != n:
@@ -165,6 +167,10 @@ def run(ctx):
             if listname == "full":
                 objs += trees.add_full_list_content(tree)
                 os.chmod(tree.path("hello.pyg"), 0o755)
+                tree.write("docs/two.pyg", trees.PYG_SRC.replace("pyg:", "second-script:").replace("pyg out", "second pyg"), mode=0o755)
+                for pp in ("hello.pyg", "docs/two.pyg"):
+                    os.utime(tree.path(pp), (1_700_000_000, 1_700_000_000))        # written within the same second
+                objs += [("/docs/two.pyg", "file")]
                 kw["handlers.ZIP.ZIPHandler|enabled"] = "true"
             cfg = pyg.make_config(tree.root, pyg.FULL_HANDLERS if listname == "full" else None, **kw)
             pristine = tree.tmp + "-pristine"
@@ -183,7 +189,13 @@ def run(ctx):
                          # message numbers far beyond any mailbox
                          (b"/mail/box.mbox|/MBOX-MESSAGE/1000000000000000\r\n", False), (b"/maild|/MAILDIR-MESSAGE/99999999999999999999\r\n", False),
                          (b"GET /mail/box.mbox%7C/MBOX-MESSAGE/123456789012345678 HTTP/1.0\r\n\r\n", False), (b"/mail/box.mbox|/MBOX-MESSAGE/0\r\n", False),
-                         (b"/mail/box.mbox|/MBOX-MESSAGE/-1\r\n", False)]
+                         (b"/mail/box.mbox|/MBOX-MESSAGE/-1\r\n", False),
+                         # Gopher+ information and directory requests for objects the handler only finds missing late
+                         (b"/mail/box.mbox|/MBOX-MESSAGE/9999\t!\r\n", False), (b"/maild|/MAILDIR-MESSAGE/77\t!\r\n", False),
+                         (b"/mail/box.mbox|/MBOX-MESSAGE/9999\t$\r\n", False), (b"/mail/box.mbox|/MBOX-MESSAGE/3\t+\r\n", False),
+                         (b"/nonexist|/MBOX-MESSAGE/1\t!\r\n", False), (b"/arch.zip/no-such-member\t!\r\n", False),
+                         # two scripts with the same modification second, one after the other
+                         (b"/hello.pyg\r\n", False), (b"/docs/two.pyg\r\n", False), (b"/hello.pyg\t!\r\n", False), (b"/docs/two.pyg\t+\r\n", False)]
                 requests = fixed + requests
                 seq_out = []
                 for rq, tls in requests:
@@ -238,6 +250,7 @@ def run(ctx):
                         continue
                     shutil.rmtree(tree.root)
                     shutil.copytree(pristine, tree.root, symlinks=True)
+                    pyg.fresh_process_state()      # ... and a server process that has served nothing yet
                     rq, tls = requests[i]
                     r, dt = ask(cfg, tree, rq, tls, listname == "full")
                     res.evaluations += 1
